@@ -83,12 +83,10 @@ impl Hsla {
 /// Value is an angle in degrees, return same angle, but 0 <= value < 360.x
 fn deg_mod(value: f64) -> f64 {
     let turn = 360.;
-    let value = value % turn;
-    if value.is_sign_negative() {
-        value + turn
-    } else {
-        value
-    }
+    let value = value.rem_euclid(turn);
+    // rem_euclid may round up to the modulus for tiny negative inputs,
+    // and keeps -0.0 as -0.0.
+    if value >= turn || value == 0. { 0. } else { value }
 }
 
 impl Display for Formatted<'_, Hsla> {
